@@ -14,8 +14,11 @@
 //!    a client certificate, `handshakeOk`)                                   → `FailKind::Model`.
 //! Beyond the matrix: configuration corner cases (cert without key, no CA file, CA bundle, empty CA
 //! file, unparsable names), a probe of whether the server sends a CertificateRequest, the server-name
-//! choice of the real client (`client_main_inner` → `ws_connect::handshake`), and identity reload
-//! through the real `run_listener` + `reload_tls_identity`.
+//! choice of the real client (`client_main_inner` → `ws_connect::handshake`), identity reload
+//! through the real `run_listener` + `reload_tls_identity`, and histories of reloads (certificate and
+//! client-CA setting) with long-lived clients that keep their `ClientConfig` — and so offer session
+//! resumption — across connections (`resume …` scenarios): every handshake after a reload is judged
+//! by the identity and client-CA policy in force at that moment.
 //!
 //! Certificates are generated with rcgen into `/verif/.build/tmp/c17-<pid>/round<n>/` (removed at exit).
 
@@ -896,6 +899,546 @@ async fn reload_part(cx: &mut Ctx, pki: &Pki, round: &Round) {
 }
 
 // ---------------------------------------------------------------------------------------------
+// Returning clients across reloads: clients that keep their `ClientConfig` (TLS session store)
+// ---------------------------------------------------------------------------------------------
+//
+// The property: "a server configured with a client CA completes the handshake only with clients
+// presenting a certificate issued under that CA … and replacing the server identity at run time
+// changes what later handshakes see without disturbing established connections".  A *later
+// handshake* is any handshake after the reload — also the one of a client that was connected before
+// and comes back offering the session ticket it was given then.  The oracle below is that statement
+// and nothing else: every connection made after a reload is admitted iff the client-CA policy in
+// force NOW admits that client, it is shown the identity in force NOW, and connections established
+// earlier keep answering with the identity they started with.  Whether a handshake is a full or a
+// resumed one is not part of the property; it is compared with the model only (`FailKind::Model`).
+
+/// Client-CA setting of the server: none / CA C / CA D.
+#[derive(Clone, Copy, Debug, PartialEq, Eq)]
+enum Pol {
+    None,
+    C,
+    D,
+}
+
+/// A client: without certificate / certificate issued under CA C / under CA D.
+#[derive(Clone, Copy, Debug, PartialEq, Eq)]
+enum Who {
+    Anon,
+    C,
+    D,
+}
+
+impl Pol {
+    const ALL: [Pol; 3] = [Pol::None, Pol::C, Pol::D];
+    fn ch(self) -> char {
+        match self {
+            Pol::None => 'n',
+            Pol::C => 'c',
+            Pol::D => 'd',
+        }
+    }
+    fn parse(c: char) -> Option<Self> {
+        Self::ALL.into_iter().find(|p| p.ch() == c)
+    }
+    fn ca_file(self, pki: &Pki) -> Option<String> {
+        match self {
+            Pol::None => None,
+            Pol::C => Some(pki.p("ca_c.pem")),
+            Pol::D => Some(pki.p("ca_d.pem")),
+        }
+    }
+    /// The property's statement: no client CA admits everybody (and asks nobody), a client CA admits
+    /// exactly the clients presenting a certificate issued under it.
+    fn admits(self, w: Who) -> bool {
+        match self {
+            Pol::None => true,
+            Pol::C => w == Who::C,
+            Pol::D => w == Who::D,
+        }
+    }
+}
+
+impl Who {
+    const ALL: [Who; 3] = [Who::Anon, Who::C, Who::D];
+    fn ch(self) -> char {
+        match self {
+            Who::Anon => 'a',
+            Who::C => 'c',
+            Who::D => 'd',
+        }
+    }
+    fn parse(c: char) -> Option<Self> {
+        Self::ALL.into_iter().find(|p| p.ch() == c)
+    }
+    fn files(self, pki: &Pki) -> Option<(String, String)> {
+        match self {
+            Who::Anon => None,
+            Who::C => Some((pki.p("cli_trusted.pem"), pki.p("cli_trusted.key"))),
+            Who::D => Some((pki.p("cli_other.pem"), pki.p("cli_other.key"))),
+        }
+    }
+}
+
+#[derive(Clone, Copy, Debug, PartialEq, Eq)]
+enum REv {
+    /// long-lived client number k connects again with the `ClientConfig` it has used all along
+    Connect(usize),
+    /// a client of this kind with a brand-new `ClientConfig` connects
+    Fresh(Who),
+    /// `reload_tls_identity` with a new leaf and this client-CA setting
+    Reload(Pol),
+    /// `reload_tls_identity` from an unreadable certificate file (must fail and change nothing)
+    ReloadFail,
+}
+
+/// `resume <initial policy> <long-lived clients> <event>…`, e.g. `resume n acd c0 c1 c2 rc c0 c1 c2 fa`.
+#[derive(Clone, Debug, PartialEq, Eq)]
+struct RScenario {
+    init: Pol,
+    clients: Vec<Who>,
+    evs: Vec<REv>,
+}
+
+const MAX_RELOADS: usize = 8;
+
+impl RScenario {
+    fn line(&self) -> String {
+        let mut s = format!("resume {} {}", self.init.ch(), self.clients.iter().map(|w| w.ch()).collect::<String>());
+        for e in &self.evs {
+            s.push(' ');
+            match e {
+                REv::Connect(k) => s.push_str(&format!("c{k}")),
+                REv::Fresh(w) => s.push_str(&format!("f{}", w.ch())),
+                REv::Reload(p) => s.push_str(&format!("r{}", p.ch())),
+                REv::ReloadFail => s.push('x'),
+            }
+        }
+        s
+    }
+    fn parse(line: &str) -> Option<Self> {
+        let t: Vec<&str> = line.split_whitespace().collect();
+        if t.len() < 3 || t[0] != "resume" || t[1].chars().count() != 1 {
+            return None;
+        }
+        let init = Pol::parse(t[1].chars().next()?)?;
+        let clients = if t[2] == "-" { vec![] } else { t[2].chars().map(Who::parse).collect::<Option<Vec<_>>>()? };
+        let mut evs = vec![];
+        for tok in &t[3..] {
+            let mut cs = tok.chars();
+            let ev = match cs.next()? {
+                'c' => {
+                    let k: usize = cs.as_str().parse().ok()?;
+                    if k >= clients.len() {
+                        return None;
+                    }
+                    REv::Connect(k)
+                }
+                'f' => REv::Fresh(Who::parse(cs.next()?)?),
+                'r' => REv::Reload(Pol::parse(cs.next()?)?),
+                'x' if cs.as_str().is_empty() => REv::ReloadFail,
+                _ => return None,
+            };
+            evs.push(ev);
+        }
+        if evs.iter().filter(|e| matches!(e, REv::Reload(_))).count() > MAX_RELOADS {
+            return None;
+        }
+        Some(Self { init, clients, evs })
+    }
+}
+
+/// One connection attempt of a resume scenario, as observed on the real code.
+#[derive(Clone, Debug)]
+struct RConn {
+    ev: usize,
+    who: Who,
+    returning: Option<usize>,
+    /// the ticket the client holds, as the cache number of the configuration that last admitted it
+    ticket: Option<u64>,
+    /// policy and identity label in force when the connection was made
+    pol: Pol,
+    label: usize,
+    /// the client's side of the handshake completed
+    hs_done: bool,
+    leaf: Option<String>,
+    kind: Option<&'static str>,
+    served: bool,
+    err: String,
+}
+
+#[derive(Clone, Debug, Default)]
+struct RRun {
+    conns: Vec<RConn>,
+    /// (class, description): what is not as the property demands
+    problems: Vec<(String, String)>,
+    /// the scenario could not be run (not a verdict on the code)
+    infra: Option<String>,
+    /// model request lines, parallel to the events that the model sees
+    model_ops: Vec<String>,
+}
+
+/// Self-signed `localhost` leaves, one per identity label (`label = 10 * (index + 1)`), per round.
+fn resume_leaves(round: &Round) -> Vec<(String, String, Vec<u8>)> {
+    (0..=MAX_RELOADS).map(|i| leaf(&format!("resume identity {i}"), &["localhost"], true, None, round.alg)).collect()
+}
+
+async fn run_resume(pki: &Pki, leaves: &[(String, String, Vec<u8>)], sc: &RScenario) -> RRun {
+    let mut out = RRun::default();
+    let dir = pki.dir.join("resume");
+    std::fs::create_dir_all(&dir).expect("resume dir");
+    let cert = dir.join("cert.pem").to_str().expect("path").to_string();
+    let keyp = dir.join("privkey.pem").to_str().expect("path").to_string();
+    let put = |l: &(String, String, Vec<u8>)| {
+        std::fs::write(&cert, &l.0).expect("write cert");
+        std::fs::write(&keyp, &l.1).expect("write key");
+    };
+    let label_of = |der: &Option<Vec<u8>>| -> Option<String> {
+        der.as_ref().map(|d| leaves.iter().position(|l| &l.2 == d).map_or("unknown".into(), |i| format!("{}", 10 * (i + 1))))
+    };
+    put(&leaves[0]);
+    let identity = match make_tls_identity(&cert, &keyp, sc.init.ca_file(pki).as_deref()).await {
+        Ok(i) => i,
+        Err(e) => {
+            out.infra = Some(format!("make_tls_identity: {e}"));
+            return out;
+        }
+    };
+    out.model_ops.push("rinit 10".into());
+    let listener = match tokio::net::TcpListener::bind("127.0.0.1:0").await {
+        Ok(l) => l,
+        Err(e) => {
+            out.infra = Some(format!("bind: {e}"));
+            return out;
+        }
+    };
+    let addr = listener.local_addr().expect("local addr");
+    let state = match rusty_penguin_lib::server::State::new().await {
+        Ok(s) => s,
+        Err(e) => {
+            out.infra = Some(format!("State::new: {e}"));
+            return out;
+        }
+    };
+    // the real accept loop: `load_full()` per accepted connection, `serve_connection_tls`
+    let srv = tokio::spawn(rusty_penguin_lib::server::run_listener(listener, Some(identity.clone()), state));
+    // the real client configuration (`--tls-skip-verify`, the client's certificate if it has one);
+    // a long-lived client keeps its `ClientConfig`, and with it rustls' client-side session store
+    async fn client_config(pki: &Pki, w: Who) -> Result<Arc<rustls::ClientConfig>, String> {
+        let (c, k) = w.files(pki).unzip();
+        make_client_config(c.as_deref(), k.as_deref(), None, true, Some(&["http/1.1"]))
+            .await
+            .map(Arc::new)
+            .map_err(|e| format!("make_client_config: {e}"))
+    }
+    let mut kept: Vec<Arc<rustls::ClientConfig>> = vec![];
+    for w in &sc.clients {
+        match client_config(pki, *w).await {
+            Ok(c) => kept.push(c),
+            Err(e) => {
+                out.infra = Some(e);
+                srv.abort();
+                return out;
+            }
+        }
+    }
+    let mut tickets: Vec<Option<u64>> = vec![None; sc.clients.len()];
+    let (mut pol, mut label, mut cache) = (sc.init, 0usize, 0u64);
+    // (stream, the identity it was shown when it was established, description)
+    let mut established: Vec<(ClientStream, Option<String>, String)> = vec![];
+    for (i, ev) in sc.evs.iter().enumerate() {
+        match *ev {
+            REv::Reload(p) => {
+                if label + 1 >= leaves.len() {
+                    out.infra = Some("too many reloads in one scenario".into());
+                    break;
+                }
+                put(&leaves[label + 1]);
+                if let Err(e) = reload_tls_identity(&identity, &cert, &keyp, p.ca_file(pki).as_deref()).await {
+                    out.problems.push(("reload-failed".into(), format!("event {i}: reload_tls_identity failed: {e}")));
+                    break;
+                }
+                label += 1;
+                cache += 1;
+                pol = p;
+                out.model_ops.push(format!("rreload {}", 10 * (label + 1)));
+                for (s, _, what) in &mut established {
+                    if let Err(e) = health(s).await {
+                        out.problems.push(("established-disturbed".into(),
+                            format!("event {i} (reload): the established connection of {what} stopped answering: {e}")));
+                    }
+                }
+            }
+            REv::ReloadFail => {
+                std::fs::write(&cert, "garbage").expect("write");
+                if reload_tls_identity(&identity, &cert, &keyp, pol.ca_file(pki).as_deref()).await.is_ok() {
+                    out.problems.push(("bad-reload-accepted".into(),
+                        format!("event {i}: reload from a file without certificates reported success")));
+                }
+                put(&leaves[label]);
+                out.model_ops.push("rreload-fail".into());
+            }
+            REv::Connect(_) | REv::Fresh(_) => {
+                let (who, returning, cfg) = match *ev {
+                    REv::Connect(k) => (sc.clients[k], Some(k), Ok(kept[k].clone())),
+                    REv::Fresh(w) => (w, None, client_config(pki, w).await),
+                    _ => unreachable!(),
+                };
+                let cfg = match cfg {
+                    Ok(c) => c,
+                    Err(e) => {
+                        out.infra = Some(e);
+                        break;
+                    }
+                };
+                let ticket = returning.and_then(|k| tickets[k]);
+                let mut c = RConn { ev: i, who, returning, ticket, pol, label, hs_done: false, leaf: None, kind: None,
+                    served: false, err: String::new() };
+                out.model_ops.push(format!("raccept {}", ticket.map_or("-".to_string(), |t| t.to_string())));
+                let attempt = async {
+                    let tcp = tokio::net::TcpStream::connect(addr).await.map_err(|e| (true, format!("tcp: {e}")))?;
+                    let name = rustls::pki_types::ServerName::try_from("localhost").expect("server name");
+                    let s = tokio_rustls::TlsConnector::from(cfg).connect(name, tcp).await.map_err(|e| (false, format!("tls: {e}")))?;
+                    Ok::<ClientStream, (bool, String)>(tokio_rustls::TlsStream::Client(s))
+                };
+                match tokio::time::timeout(CASE_TIMEOUT, attempt).await {
+                    Err(_) => {
+                        out.infra = Some(format!("event {i}: connection attempt timed out"));
+                        break;
+                    }
+                    Ok(Err((true, e))) => {
+                        out.infra = Some(format!("event {i}: {e}"));
+                        break;
+                    }
+                    Ok(Err((false, e))) => c.err = e,
+                    Ok(Ok(mut s)) => {
+                        c.hs_done = true;
+                        c.leaf = label_of(&peer_leaf(&s));
+                        c.kind = match s.get_ref().1.handshake_kind() {
+                            Some(rustls::HandshakeKind::Resumed) => Some("resumed"),
+                            Some(_) => Some("full"),
+                            None => None,
+                        };
+                        match health(&mut s).await {
+                            Ok(()) => {
+                                c.served = true;
+                                if let Some(k) = returning {
+                                    tickets[k] = Some(cache);
+                                }
+                                let what = format!("{} (event {i})", match returning {
+                                    Some(k) => format!("long-lived client {k} [{}]", who.ch()),
+                                    None => format!("fresh client [{}]", who.ch()),
+                                });
+                                established.push((s, c.leaf.clone(), what));
+                            }
+                            Err(e) => c.err = e,
+                        }
+                    }
+                }
+                // the property, directly
+                let want = pol.admits(who);
+                let whom = match returning {
+                    Some(k) => format!("long-lived client {k} ({})", match ticket {
+                        Some(t) if t == cache => "admitted before under the configuration still in force".to_string(),
+                        Some(t) => format!("last admitted {} reload(s) ago", cache - t),
+                        None => "never admitted so far".into(),
+                    }),
+                    None => "a fresh client".into(),
+                };
+                let cert_txt = match who {
+                    Who::Anon => "without certificate",
+                    Who::C => "with a certificate issued under CA C",
+                    Who::D => "with a certificate issued under CA D",
+                };
+                let pol_txt = match pol {
+                    Pol::None => "no client CA".to_string(),
+                    p => format!("client CA {}", p.ch().to_ascii_uppercase()),
+                };
+                if c.served != want {
+                    let class = match (c.served, returning.is_some() && ticket.is_some_and(|t| t != cache)) {
+                        (true, true) => "returning-client-admitted-against-current-client-ca",
+                        (true, false) => "client-admitted-against-client-ca",
+                        (false, _) => "client-refused-against-policy",
+                    };
+                    out.problems.push((class.into(), format!(
+                        "event {i}: {whom} {cert_txt} connects while the identity in force has {pol_txt}: the property requires the \
+                         connection to be {}, observed: {} (handshake kind {:?}, {})",
+                        if want { "served" } else { "refused" },
+                        if c.served { "served" } else { "refused" }, c.kind, if c.err.is_empty() { "no error" } else { &c.err })));
+                }
+                let want_leaf = format!("{}", 10 * (label + 1));
+                if c.hs_done && c.leaf.as_deref() != Some(&want_leaf) {
+                    out.problems.push(("later-handshake-sees-old-identity".into(), format!(
+                        "event {i}: {whom} {cert_txt} completed a handshake (kind {:?}) and was shown identity {:?}; the identity in \
+                         force is {want_leaf}", c.kind, c.leaf)));
+                }
+                out.conns.push(c);
+            }
+        }
+    }
+    if out.infra.is_none() {
+        for (s, lab, what) in &mut established {
+            if let Err(e) = health(s).await {
+                out.problems.push(("established-disturbed".into(),
+                    format!("at the end: the established connection of {what} stopped answering: {e}")));
+            }
+            if label_of(&peer_leaf(s)) != *lab {
+                out.problems.push(("established-identity-changed".into(),
+                    format!("at the end: the peer certificate of the established connection of {what} changed")));
+            }
+        }
+    }
+    srv.abort();
+    out
+}
+
+fn rconn_json(c: &RConn) -> Value {
+    json!({"event": c.ev, "client": c.who.ch().to_string(), "long_lived": c.returning, "ticket_of_cache": c.ticket,
+        "policy_in_force": c.pol.ch().to_string(), "identity_in_force": 10 * (c.label + 1), "client_handshake_completed": c.hs_done,
+        "identity_seen": c.leaf, "kind": c.kind, "served": c.served, "error": c.err})
+}
+
+/// The fixed part: every (old policy → new policy) transition with one long-lived client of each kind
+/// connecting before and after, fresh clients of each kind afterwards, and the long-lived clients
+/// once more (now holding a ticket of the new configuration if it admitted them); failed reloads;
+/// tickets that are several reloads old.
+fn resume_fixed() -> Vec<RScenario> {
+    use REv::{Connect as C, Fresh as F, Reload as R, ReloadFail as X};
+    let all = vec![Who::Anon, Who::C, Who::D];
+    let mut v = vec![];
+    // transitions that change the client-CA setting first
+    let mut transitions: Vec<(Pol, Pol)> = Pol::ALL.into_iter().flat_map(|a| Pol::ALL.into_iter().map(move |b| (a, b))).collect();
+    transitions.sort_by_key(|(a, b)| a == b);
+    for (p0, p1) in transitions {
+        {
+            v.push(RScenario { init: p0, clients: all.clone(), evs: vec![C(0), C(1), C(2), R(p1), C(0), C(1), C(2),
+                F(Who::Anon), F(Who::C), F(Who::D), C(0), C(1), C(2)] });
+        }
+    }
+    // a failed reload changes nothing (the long-lived clients may go on resuming)
+    v.push(RScenario { init: Pol::C, clients: all.clone(), evs: vec![C(0), C(1), C(2), X, C(0), C(1), C(2), R(Pol::D), X, C(0), C(1), C(2)] });
+    // tickets two and three configurations old; a policy that comes back is still a new configuration
+    v.push(RScenario { init: Pol::None, clients: all.clone(), evs: vec![C(0), C(1), C(2), R(Pol::None), R(Pol::C), C(0), C(1), C(2),
+        R(Pol::None), C(0), C(2), R(Pol::D), C(0), C(1), C(2), R(Pol::C), R(Pol::None), R(Pol::C), C(0), C(1), C(2)] });
+    // two long-lived clients of the same kind, one connecting before each reload, one skipping some
+    v.push(RScenario { init: Pol::C, clients: vec![Who::C, Who::C, Who::Anon], evs: vec![C(0), C(1), C(0), R(Pol::C), C(0), R(Pol::D), C(0), C(1),
+        R(Pol::None), C(2), C(1), R(Pol::C), C(2), C(0), C(1)] });
+    v
+}
+
+fn resume_random(r: &mut Rng) -> RScenario {
+    let init = *r.pick(&Pol::ALL);
+    let n = r.range(1, 4) as usize;
+    let clients: Vec<Who> = (0..n).map(|_| *r.pick(&Who::ALL)).collect();
+    let len = r.range(6, 18) as usize;
+    let mut evs = vec![];
+    let mut reloads = 0;
+    for _ in 0..len {
+        let e = match r.below(10) {
+            0..=4 => REv::Connect(r.below(n as u64) as usize),
+            5 => REv::Fresh(*r.pick(&Who::ALL)),
+            6 => REv::ReloadFail,
+            _ if reloads < MAX_RELOADS => {
+                reloads += 1;
+                REv::Reload(*r.pick(&Pol::ALL))
+            }
+            _ => REv::Connect(r.below(n as u64) as usize),
+        };
+        evs.push(e);
+    }
+    RScenario { init, clients, evs }
+}
+
+async fn resume_part(cx: &mut Ctx, pki: &Pki, round: &Round, leaves: &[(String, String, Vec<u8>)], scs: &[RScenario]) {
+    for sc in scs {
+        let line = sc.line();
+        let key_tail = format!("{line} [round {}: {}]", round.idx, round.alg);
+        cx.rep.case(Some(fnv(key_tail.as_bytes())));
+        cx.rep.count("resume/scenario");
+        let mut run = run_resume(pki, leaves, sc).await;
+        if run.infra.is_some() || !run.problems.is_empty() {
+            // run once more on its own before anything is reported (loaded machine)
+            cx.rep.count("resume/re-run");
+            run = run_resume(pki, leaves, sc).await;
+        }
+        let round_json = json!({"idx": round.idx, "alg": round.alg, "intermediate": round.intermediate,
+            "mismatch_on_cert": round.mismatch_on_cert});
+        if let Some(why) = &run.infra {
+            cx.rep.fail(FailKind::Model, &format!("resume could-not-run :: {key_tail}"), why,
+                json!({"op": "resume", "line": line, "round": round_json}));
+            continue;
+        }
+        for c in &run.conns {
+            cx.rep.count(&format!("resume/{}{}/{}", if c.returning.is_some() { "long-lived" } else { "fresh" },
+                match c.ticket { Some(_) => "+ticket", None => "" }, if c.served { "served" } else { "refused" }));
+            if let Some(k) = c.kind {
+                cx.rep.count(&format!("resume/kind/{k}"));
+            }
+        }
+        if let Some((class, _)) = run.problems.first().cloned() {
+            // shrink the event list while the same class of failure remains
+            let mut small = sc.clone();
+            let mut best = run.clone();
+            let clients = sc.clients.clone();
+            let init = sc.init;
+            let mut budget = 40;
+            let mut cands: Vec<Vec<REv>> = vec![];
+            // (shrink_list wants a synchronous predicate; collect candidates greedily instead)
+            loop {
+                cands.clear();
+                for i in 0..small.evs.len() {
+                    let mut e = small.evs.clone();
+                    e.remove(i);
+                    cands.push(e);
+                }
+                let mut progressed = false;
+                for e in cands.drain(..) {
+                    if budget == 0 {
+                        break;
+                    }
+                    budget -= 1;
+                    let cand = RScenario { init, clients: clients.clone(), evs: e };
+                    let r = run_resume(pki, leaves, &cand).await;
+                    if r.infra.is_none() && r.problems.iter().any(|(c, _)| *c == class) {
+                        small = cand;
+                        best = r;
+                        progressed = true;
+                        break;
+                    }
+                }
+                if !progressed || budget == 0 {
+                    break;
+                }
+            }
+            let sline = small.line();
+            for (class, desc) in &best.problems {
+                cx.rep.fail(FailKind::Impl, &format!("resume {class} :: {sline} [round {}: {}]", round.idx, round.alg), desc,
+                    json!({"op": "resume", "line": sline, "round": round_json, "found_in": line,
+                        "connections": best.conns.iter().map(rconn_json).collect::<Vec<_>>()}));
+            }
+            continue;
+        }
+        if let Some(d) = cx.drv.as_mut() {
+            let answers = d.batch(&run.model_ops);
+            let acc: Vec<&String> = run.model_ops.iter().zip(&answers).filter(|(o, _)| o.starts_with("raccept")).map(|(_, a)| a).collect();
+            for (c, a) in run.conns.iter().zip(acc) {
+                cx.rep.model_compared += 1;
+                let mut t = a.split(' ');
+                let (mid, mkind) = (t.next().unwrap_or(""), t.next().unwrap_or(""));
+                let agree = !c.hs_done || (c.leaf.as_deref() == Some(mid) && c.kind == Some(mkind));
+                if !agree || !(mkind == "full" || mkind == "resumed") {
+                    cx.rep.fail(FailKind::Model, &format!("model resume :: {key_tail}"),
+                        &format!("event {}: model `{a}` vs implementation identity {:?} kind {:?}", c.ev, c.leaf, c.kind),
+                        json!({"op": "resume", "line": line, "round": round_json, "connections": run.conns.iter().map(rconn_json).collect::<Vec<_>>()}));
+                }
+            }
+        }
+        if cx.rep.samples.len() < 10 && sc.evs.len() > 12 && round.idx == 0 {
+            cx.rep.sample(json!({"resume": line, "connections": run.conns.iter().map(rconn_json).collect::<Vec<_>>()}));
+        }
+    }
+}
+
+// ---------------------------------------------------------------------------------------------
 
 fn rounds_for(args: &Args, rng: &mut Rng) -> Vec<Round> {
     let mut v = vec![Round { idx: 0, alg: "p256", intermediate: false, mismatch_on_cert: false }];
@@ -962,6 +1505,38 @@ fn replay(path: &str) -> i32 {
                 1
             }
         }
+        Some("resume") => {
+            let Some(sc) = rp["line"].as_str().and_then(RScenario::parse) else {
+                println!("unreadable resume scenario");
+                return 2;
+            };
+            let r = &rp["round"];
+            let alg = ["p256", "p384", "ed25519", "rsa"].into_iter().find(|a| Some(*a) == r["alg"].as_str()).unwrap_or("p256");
+            let round = Round { idx: 0, alg, intermediate: r["intermediate"].as_bool().unwrap_or(false), mismatch_on_cert: false };
+            let pki = Pki::generate(&base, &round);
+            let leaves = resume_leaves(&round);
+            println!("scenario  {}", sc.line());
+            let mut run = rt.block_on(run_resume(&pki, &leaves, &sc));
+            if run.infra.is_some() || !run.problems.is_empty() {
+                println!("first run fails; running once more");
+                run = rt.block_on(run_resume(&pki, &leaves, &sc));
+            }
+            for c in &run.conns {
+                println!("observed  {}", rconn_json(c));
+            }
+            if let Some(why) = &run.infra {
+                println!("could not run: {why}");
+                2
+            } else if run.problems.is_empty() {
+                println!("holds on this input");
+                0
+            } else {
+                for (k, d) in &run.problems {
+                    println!("FAILS [{k}]: {d}");
+                }
+                1
+            }
+        }
         Some(op @ ("reload" | "name" | "asks")) => {
             let round = Round { idx: 0, alg: "p256", intermediate: false, mismatch_on_cert: false };
             let pki = Pki::generate(&base, &round);
@@ -998,8 +1573,8 @@ fn main() {
     let rule = "every combination of the property's quantifier {server cert: trusted CA/other CA/self-signed} x {name \
 matches/differs} x {skip-verify} x {client cert: none/trusted CA/other CA} x {server client-CA set/not} (72) as a real \
 handshake per PKI round (key algorithm, direct or via an intermediate, name mismatch on the request or on the \
-certificate), plus configuration corner cases, CertificateRequest probes, the client's server-name choice and the reload \
-scenario; every case is non-trivial (a real handshake or configuration attempt); distinct by (round, configuration)";
+certificate), plus configuration corner cases, CertificateRequest probes, the client's server-name choice, the reload \
+scenario and histories of reloads with long-lived clients that keep their TLS session store (every client-CA transition); every case is non-trivial (a real handshake or configuration attempt); distinct by (round, configuration)";
     let mut cx = Ctx {
         rep: Report::new("tls", &args, rule),
         drv: args.driver.as_deref().map(|p| Driver::spawn(p, &[]).expect("start Lean driver")),
@@ -1022,6 +1597,12 @@ scenario; every case is non-trivial (a real handshake or configuration attempt);
                     .filter_map(|v| Case::from_json(&v))
                     .collect();
                 cx.eval_cases(&pki, &rounds[0], &cases).await;
+                // `resume …` lines: returning-client scenarios
+                let rscs: Vec<RScenario> = text.lines().filter_map(RScenario::parse).collect();
+                if !rscs.is_empty() {
+                    let leaves = resume_leaves(&rounds[0]);
+                    resume_part(&mut cx, &pki, &rounds[0], &leaves, &rscs).await;
+                }
             }
         }
         for round in &rounds {
@@ -1037,6 +1618,15 @@ scenario; every case is non-trivial (a real handshake or configuration attempt);
             if round.idx == 0 || args.tier == Tier::Thorough {
                 name_part(&mut cx, &pki, round).await;
                 reload_part(&mut cx, &pki, round).await;
+                // returning clients: the fixed family (all policy transitions) plus seeded histories
+                let leaves = resume_leaves(round);
+                let mut rscs = resume_fixed();
+                let n_random = match args.tier {
+                    Tier::Quick => 6,
+                    Tier::Thorough => 10,
+                };
+                rscs.extend((0..n_random).map(|_| resume_random(&mut rng)));
+                resume_part(&mut cx, &pki, round, &leaves, &rscs).await;
             }
             cx.rep.count(&format!("round/{}{}{}", round.alg, if round.intermediate { "+intermediate" } else { "" },
                 if round.mismatch_on_cert { "+san-mismatch" } else { "" }));
